@@ -67,6 +67,8 @@ class HarnessResult:
         self.note = ""
         self.raw = []
         self.stats = {}
+        self.covers_named = []
+        self.cbmc_verdict = None
 
     @property
     def short(self):
@@ -144,37 +146,264 @@ def parse_terse(text):
     return res
 
 
-def run_cargo_kani(feature, filters, exact, solver, jobs, timeout_s, target_dir, extra=None, fs_array=1024):
-    """One cargo-kani invocation. Returns (text, json_or_None, wall)."""
-    out_json = os.path.join(target_dir, "export-%d.json" % os.getpid())
+class MemWatch:
+    """Memory guard: `ulimit -v` cannot be used (it also caps the multi-threaded kani driver, which then
+    aborts), so solver processes are watched instead: any cbmc/z3/cvc5 process above PER_PROC_KB resident,
+    or the largest one when together they exceed TOTAL_KB, is killed. A killed solver shows up as
+    'CBMC failed' => inconclusive for that back end, never as success."""
+    PER_PROC_KB = 14_000_000
+    TOTAL_KB = 48_000_000
+
+    def __enter__(self):
+        import threading
+        self.stop = threading.Event()
+        self.killed = []
+        self.t = threading.Thread(target=self.loop, daemon=True)
+        self.t.start()
+        return self
+
+    def __exit__(self, *a):
+        self.stop.set()
+        self.t.join(timeout=5)
+
+    def loop(self):
+        while not self.stop.wait(2.0):
+            procs = []
+            for pid in os.listdir("/proc"):
+                if not pid.isdigit():
+                    continue
+                try:
+                    comm = open("/proc/%s/comm" % pid).read().strip()
+                    if comm not in ("cbmc", "z3", "cvc5", "kissat"):
+                        continue
+                    rss = 0
+                    for line in open("/proc/%s/status" % pid):
+                        if line.startswith("VmRSS:"):
+                            rss = int(line.split()[1])
+                    procs.append((rss, int(pid)))
+                except Exception:
+                    continue
+            total = sum(r for r, _ in procs)
+            procs.sort(reverse=True)
+            for rss, pid in procs:
+                if rss > self.PER_PROC_KB or total > self.TOTAL_KB:
+                    try:
+                        os.kill(pid, 9)
+                        self.killed.append((pid, rss))
+                        total -= rss
+                    except Exception:
+                        pass
+
+
+# ------------------------------------------------------------------ own CBMC driver
+# `cargo kani` is used for code generation only (kani-compiler: Rust MIR -> goto program per harness).
+# The link / instrument / cbmc steps are then run here with exactly the command lines Kani 0.68 uses
+# (captured with --verbose), because Kani's driver parses CBMC's verbosity-9 JSON stream message by
+# message: on these harnesses that costs 4-5x the CBMC time and tens of GB in the driver process.
+
+KANI_HOME = os.path.expanduser("~/.kani/kani-0.68.0")
+KANI_LIB_C = os.path.join(KANI_HOME, "library", "kani", "kani_lib.c")
+CBMC_BASE = ["--no-malloc-may-fail", "--no-undefined-shift-check", "--no-signed-overflow-check",
+             "--no-bounds-check", "--no-pointer-check",  # Kani's --no-memory-safety-checks (crate is 100% safe Rust)
+             "--nan-check", "--no-self-loops-to-assumptions", "--no-pointer-primitive-check",
+             "--object-bits", "16", "--slice-formula"]
+
+
+def build_goto(feature, target_dir):
+    """kani-compiler run over the harness crate + /repo (path dependency). The harness crate's own
+    build output is wiped first so that the goto programs used are always the ones just generated."""
+    stale = os.path.join(target_dir, "kani", "x86_64-unknown-linux-gnu", "debug", "build", "acpi_verif")
+    shutil.rmtree(stale, ignore_errors=True)
     os.makedirs(target_dir, exist_ok=True)
-    if os.path.exists(out_json):
-        os.remove(out_json)
-    cmd = ["cargo", "kani", "--features", feature, "--target-dir", target_dir]
-    for f in filters:
-        cmd += ["--harness", f]
-    if exact:
-        cmd += ["--exact"]
-    if solver:
-        cmd += ["--solver", solver]
-    cmd += ["-j", str(jobs), "--output-format", "terse", "-Z", "unstable-options",
-            "--harness-timeout", "%ds" % timeout_s, "--export-json", out_json]
-    if extra:
-        cmd += extra
-    cmd += ["--cbmc-args", "--max-field-sensitivity-array-size", str(fs_array)]
-    sh = "ulimit -v %d; exec %s" % (MEM_KB, " ".join("'%s'" % c for c in cmd))
+    cmd = ["cargo", "kani", "--features", feature, "--target-dir", target_dir, "--only-codegen",
+           "--no-assertion-reach-checks"]
     t0 = time.time()
-    # overall cap: all harnesses could time out sequentially on `jobs` workers
-    p = subprocess.run(["bash", "-c", sh], cwd=KANI_DIR, env=kani_env(), stdout=subprocess.PIPE,
-                       stderr=subprocess.STDOUT, text=True)
-    wall = time.time() - t0
-    js = None
-    if os.path.exists(out_json):
-        try:
-            js = json.load(open(out_json))
-        except Exception:
-            js = None
-    return p.stdout, js, wall, p.returncode
+    p = subprocess.run(cmd, cwd=KANI_DIR, env=kani_env(), stdout=subprocess.PIPE, stderr=subprocess.STDOUT, text=True)
+    metas = []
+    for root, _d, files in os.walk(stale):
+        for f in files:
+            if f.endswith(".kani-metadata.json"):
+                metas.append(os.path.join(root, f))
+    if p.returncode != 0 or len(metas) != 1:
+        return None, p.stdout, time.time() - t0
+    md = json.load(open(metas[0]))
+    return md["proof_harnesses"], p.stdout, time.time() - t0
+
+
+def sh(cmd, **kw):
+    return subprocess.run(cmd, stdout=subprocess.PIPE, stderr=subprocess.STDOUT, text=True, **kw)
+
+
+RE_PROP = re.compile(r"^\[(.+?)\] (?:line (\d+) )?(.*)$")
+RE_HDR = re.compile(r"^(?:(\S.*?) )?function (.+)$")
+STATUSES = ("SUCCESS", "FAILURE", "UNKNOWN", "ERROR")
+
+
+def parse_cbmc_text(text, h):
+    """Plain-text CBMC output -> fills HarnessResult h."""
+    in_results = False
+    cur_file, cur_fn = "", ""
+    pending = None
+    props = []
+    for line in text.splitlines():
+        if line.startswith("Runtime Symex:"):
+            h.stats["runtime_symex_s"] = float(line.split(":")[1].strip().rstrip("s"))
+        elif line.startswith("Runtime Solver:"):
+            h.stats["runtime_solver_s"] = h.stats.get("runtime_solver_s", 0.0) + float(line.split(":")[1].strip().rstrip("s"))
+        elif line.startswith("Runtime decision procedure:"):
+            h.stats["runtime_decision_procedure_s"] = h.stats.get("runtime_decision_procedure_s", 0.0) + float(line.split(":")[1].strip().rstrip("s"))
+        elif line.startswith("size of program expression:"):
+            h.stats["size_program_expression"] = int(line.split(":")[1].split()[0])
+        elif line.startswith("Generated ") and "VCC" in line:
+            m = re.match(r"Generated (\d+) VCC\(s\), (\d+) remaining", line)
+            if m:
+                h.stats["vccs_generated"] = int(m.group(1))
+                h.stats["vccs_remaining"] = int(m.group(2))
+        if line.startswith("** Results:"):
+            in_results = True
+            continue
+        if not in_results:
+            continue
+        if line.startswith("** ") and "failed" in line:
+            continue
+        if line.startswith("VERIFICATION "):
+            h.raw.append(line)
+            h.cbmc_verdict = line.strip()
+            continue
+        if pending is not None:
+            pending["desc"] += "\n" + line
+            for st in STATUSES:
+                if line.endswith(": " + st):
+                    pending["desc"] = pending["desc"][: -len(": " + st)]
+                    pending["status"] = st
+                    props.append(pending)
+                    pending = None
+                    break
+            continue
+        m = RE_PROP.match(line)
+        if m:
+            name, ln, rest = m.group(1), m.group(2), m.group(3)
+            d = {"name": name, "line": int(ln) if ln else 0, "file": cur_file, "func": cur_fn, "desc": rest, "status": None}
+            done = False
+            for st in STATUSES:
+                if rest.endswith(": " + st):
+                    d["desc"] = rest[: -len(": " + st)]
+                    d["status"] = st
+                    props.append(d)
+                    done = True
+                    break
+            if not done:
+                pending = d
+            continue
+        m = RE_HDR.match(line)
+        if m and not line.startswith("["):
+            cur_file, cur_fn = m.group(1) or "", m.group(2)
+    # classify
+    h.checks_total = 0
+    h.checks_failed = 0
+    h.covers_total = 0
+    h.covers_sat = 0
+    for d in props:
+        parts = d["name"].rsplit(".", 2)
+        cls = parts[-2] if len(parts) == 3 else "builtin"
+        d["class"] = cls
+        if cls == "reachability_check":
+            continue
+        if cls == "cover":
+            h.covers_total += 1
+            if d["status"] == "FAILURE":
+                h.covers_sat += 1
+                h.covers_named.append(d["desc"])
+            continue
+        h.checks_total += 1
+        if d["status"] == "FAILURE":
+            h.checks_failed += 1
+            desc = d["desc"]
+            if cls == "unwind" or "unwinding assertion" in desc:
+                desc = "unwinding assertion " + desc
+            if cls == "unsupported_construct":
+                desc = "unsupported construct reached: " + desc
+            h.failed.append({"desc": desc, "file": d["file"], "line": d["line"], "func": d["func"], "class": cls})
+        elif d["status"] != "SUCCESS":
+            h.stats["undetermined"] = h.stats.get("undetermined", 0) + 1
+    if not props:
+        return
+    bad = h.checks_failed > 0
+    h.status = "FAILED" if bad else "SUCCESSFUL"
+
+
+def run_one(hm, solver, timeout_s, work_dir, fs_array, mem_kb=MEM_KB):
+    """link + instrument + cbmc for one harness (metadata entry hm)."""
+    name = hm["pretty_name"]
+    h = HarnessResult(name)
+    h.solver = solver
+    h.covers_named = []
+    h.cbmc_verdict = None
+    leaf = name.replace("::", "__")
+    out = os.path.join(work_dir, leaf + ".out")
+    logf = os.path.join(work_dir, leaf + "." + solver + ".log")
+    t0 = time.time()
+    steps = [
+        ["goto-cc", hm["goto_file"], KANI_LIB_C, "-o", out],
+        ["goto-cc", out, "--function", hm["mangled_name"], "-o", out],
+        ["goto-instrument", "--add-library", "--no-malloc-may-fail", out, out],
+        ["goto-instrument", "--generate-function-body-options", "assert-false-assume-false",
+         "--generate-function-body", ".*", "--drop-unused-functions", out, out],
+        ["goto-instrument", "--ensure-one-backedge-per-target", out, out],
+    ]
+    env = dict(os.environ)
+    env["PATH"] = os.path.join(KANI_HOME, "bin") + ":" + env["PATH"]
+    for st in steps:
+        p = sh(st, env=env)
+        if p.returncode != 0:
+            h.note = "goto step failed: %s: %s" % (st[0], p.stdout[-300:])
+            return h
+    unwind = hm["attributes"].get("unwind_value")
+    cmd = ["cbmc"] + CBMC_BASE
+    if unwind is not None:
+        cmd += ["--unwind", str(unwind)]
+    cmd += ["--z3"] if solver == "z3" else ["--sat-solver", solver]
+    cmd += ["--max-field-sensitivity-array-size", str(fs_array), out, "--verbosity", "8"]
+    shell = "ulimit -v %d; exec timeout -s KILL %d %s > '%s' 2>&1" % (
+        mem_kb, timeout_s, " ".join("'%s'" % c for c in cmd), logf)
+    p = subprocess.run(["bash", "-c", shell], env=env)
+    h.time_s = time.time() - t0
+    try:
+        text = open(logf, errors="replace").read()
+    except Exception:
+        text = ""
+    # drop the per-iteration unwinding chatter from the kept log
+    kept = [l for l in text.splitlines() if not (l.startswith("Unwinding loop") or l.startswith("Not unwinding"))]
+    open(logf, "w").write("\n".join(kept) + "\n")
+    parse_cbmc_text("\n".join(kept), h)
+    if p.returncode in (137, -9) and h.status is None:
+        h.note += "timeout (%ds) or killed; " % timeout_s
+    elif h.status is None:
+        tail = " | ".join(kept[-3:])[-200:]
+        if "std::bad_alloc" in text or "Out of memory" in text or "out of memory" in text:
+            h.note += "solver ran out of memory (limit %d kB); " % mem_kb
+        else:
+            h.note += "cbmc exit %s without results: %s; " % (p.returncode, tail)
+    elif p.returncode not in (0, 10):
+        h.note += "cbmc exit %s; " % p.returncode
+        h.status = None if not h.failed else h.status
+    try:
+        os.remove(out)
+    except Exception:
+        pass
+    return h
+
+
+def run_harnesses(hms, solver_of, jobs, timeout_s, work_dir, fs_array):
+    from concurrent.futures import ThreadPoolExecutor
+    os.makedirs(work_dir, exist_ok=True)
+    res = {}
+    with ThreadPoolExecutor(max_workers=jobs) as ex:
+        futs = {ex.submit(run_one, hm, solver_of(hm), timeout_s, work_dir, fs_array): hm for hm in hms}
+        for f in futs:
+            h = f.result()
+            res[h.name] = h
+    return res
 
 
 def merge_json(results, js, solver_default):
@@ -295,9 +524,9 @@ def replay(prop, feature, h, solver, target_dir, timeout_s):
     if solver:
         cmd += ["--solver", solver]
     cmd += ["--cbmc-args", "--max-field-sensitivity-array-size", "1024"]
-    sh = "ulimit -v %d; exec %s" % (MEM_KB, " ".join("'%s'" % c for c in cmd))
-    p = subprocess.run(["bash", "-c", sh], cwd=crate, env=kani_env(), stdout=subprocess.PIPE,
-                       stderr=subprocess.STDOUT, text=True)
+    with MemWatch():
+        p = subprocess.run(cmd, cwd=crate, env=kani_env(), stdout=subprocess.PIPE,
+                           stderr=subprocess.STDOUT, text=True)
     logtxt = p.stdout[-3000:]
     # harness fns are `pub`, so a generated test can name them by full path from a sibling module
     # (inplace insertion does not work for macro-generated harnesses: it lands in the macro body).
@@ -384,28 +613,53 @@ def main(argv):
     timeout_s = cfg.get("timeout_%s" % tier, cfg.get("timeout", 600 if tier == "quick" else 2400))
 
     # ---------------- Engine K
-    filt = "::%s::q_" % feature if tier == "quick" else "::%s::" % feature
-    filters = [filt]
-    if only:
-        filters = [only]
-    log("[%s/%s] cargo kani --features %s --harness %s (jobs=%d, per-harness timeout %ds)" %
-        (prop, tier, feature, filters[0], jobs, timeout_s))
-    text, js, wall, rc = run_cargo_kani(feature, filters, False, None, jobs, timeout_s, target_dir,
-                                        fs_array=cfg.get("fs_array", 1024))
-    open(os.path.join(target_dir, "last-%s.log" % tier), "w").write(text)
-    if "error: could not compile" in text or "error[E" in text or re.search(r"^error: ", text, re.M) and "Checking harness" not in text:
-        log(text[-3000:])
+    want = ("q_",) if tier == "quick" else ("q_", "t_")
+    log("[%s/%s] codegen: cargo kani --only-codegen --features %s (RUSTFLAGS=%s)" % (prop, tier, feature, GUARD))
+    hms, btext, bwall = build_goto(feature, target_dir)
+    os.makedirs(target_dir, exist_ok=True)
+    open(os.path.join(target_dir, "build.log"), "w").write(btext)
+    if hms is None:
+        log(btext[-3000:])
         log("BROKEN: harness crate does not build against /repo's current tree")
-        write_evidence(prop, tier, seed, cfg, [], {}, [], time.time() - t_start, 0, broken="build failed")
+        write_evidence(prop, tier, seed, cfg, {}, {}, [], time.time() - t_start, 0, broken="build failed")
         return 2
-    results = parse_terse(text)
-    merge_json(results, js, "cadical")
+    sel = [hm for hm in hms if hm["pretty_name"].split("::")[-1].startswith(want)]
     if only:
-        results = {k: v for k, v in results.items() if only in k}
-    if not results:
-        log(text[-2000:])
-        log("BROKEN: no harness ran")
+        sel = [hm for hm in sel if only in hm["pretty_name"]]
+    sel.sort(key=lambda hm: hm["pretty_name"])
+    skipped = []
+    skip = cfg.get("skip", {})
+    if not only:
+        keep = []
+        for hm in sel:
+            leaf = hm["pretty_name"].split("::")[-1]
+            if leaf in skip:
+                skipped.append({"harness": hm["pretty_name"].split("::", 1)[1], "reason": skip[leaf]})
+            else:
+                keep.append(hm)
+        sel = keep
+    cfg["_skipped"] = skipped
+    if not sel:
+        log("BROKEN: no harness selected")
         return 2
+    default_solver = cfg.get("solver") or "cadical"
+
+    def solver_of(hm):
+        return hm["attributes"].get("solver") and str(hm["attributes"]["solver"]).lower().strip('"') or default_solver
+
+    def solver_of_clean(hm):
+        sv = hm["attributes"].get("solver")
+        if isinstance(sv, dict):
+            sv = list(sv.keys())[0] if sv else None
+        if isinstance(sv, str):
+            sv = sv.lower()
+        return sv if sv in ("z3", "cadical", "kissat", "minisat", "cvc5") else default_solver
+
+    work_dir = os.path.join(target_dir, "work")
+    shutil.rmtree(work_dir, ignore_errors=True)
+    log("[%s/%s] %d harnesses, jobs=%d, per-harness timeout %ds, default back end %s (codegen %.0fs)" %
+        (prop, tier, len(sel), jobs, timeout_s, default_solver, bwall))
+    results = run_harnesses(sel, solver_of_clean, jobs, timeout_s, work_dir, cfg.get("fs_array", 1024))
 
     # ---------------- portfolio fallback for inconclusive harnesses
     verdicts = {}
@@ -413,27 +667,20 @@ def main(argv):
         verdicts[name] = classify(h, "refuse" in name.split("::")[-1])
     retry = [n for n, (v, _d) in verdicts.items() if v == "inconclusive"]
     if retry:
-        alt_for = {}
+        byname = {hm["pretty_name"]: hm for hm in sel}
+        alt_of = {n: ("cadical" if (results[n].solver or "cadical") != "cadical" else "z3") for n in retry}
+        log("[%s] %d inconclusive -> alternate back end: %s" % (prop, len(retry), ", ".join(
+            "%s(%s: %s)" % (x.split("::")[-1], alt_of[x], verdicts[x][1][:60]) for x in retry)))
+        r2 = run_harnesses([byname[n] for n in retry], lambda hm: alt_of[hm["pretty_name"]], jobs, timeout_s * 2,
+                           work_dir, cfg.get("fs_array", 1024))
         for n in retry:
-            prim = results[n].solver or "cadical"
-            alt = "cadical" if prim != "cadical" else "z3"
-            alt_for.setdefault(alt, []).append(n)
-        for alt, names in alt_for.items():
-            log("[%s] %d inconclusive -> retry with --solver %s: %s" % (prop, len(names), alt,
-                                                                      ", ".join(x.split('::')[-1] for x in names)))
-            t2, j2, _w2, _rc2 = run_cargo_kani(feature, names, True, alt, jobs, timeout_s * 2, target_dir,
-                                               fs_array=cfg.get("fs_array", 1024))
-            open(os.path.join(target_dir, "last-%s-retry-%s.log" % (tier, alt)), "w").write(t2)
-            r2 = parse_terse(t2)
-            merge_json(r2, j2, alt)
-            for n in names:
-                if n in r2:
-                    r2[n].solver = alt
-                    v2 = classify(r2[n], "refuse" in n.split("::")[-1])
-                    if v2[0] != "inconclusive":
-                        r2[n].note += "primary back end inconclusive (%s); " % verdicts[n][1]
-                        results[n] = r2[n]
-                        verdicts[n] = v2
+            v2 = classify(r2[n], "refuse" in n.split("::")[-1])
+            if v2[0] != "inconclusive":
+                r2[n].note += "primary back end inconclusive (%s); " % verdicts[n][1]
+                results[n] = r2[n]
+                verdicts[n] = v2
+            else:
+                results[n].note += "alternate back end %s also inconclusive (%s); " % (alt_of[n], v2[1])
 
     # ---------------- Engine M
     mir_report = None
@@ -513,7 +760,7 @@ def main(argv):
     if (broken or mir_broken) and exit_code == 0:
         exit_code = 2
 
-    fns, _per = crate_functions(target_dir, list(results.keys()))
+    fns, _per = crate_functions(os.path.join(target_dir, "kani"), list(results.keys()))
     wall_total = time.time() - t_start
     write_evidence(prop, tier, seed, cfg, results, verdicts, fns, wall_total, violations_reported,
                    known_lines=known_lines, mir=mir_report,
@@ -581,6 +828,7 @@ def write_evidence(prop, tier, seed, cfg, results, verdicts, fns, wall, nviol, k
             "bounds": cfg.get("bounds", ""),
             "outside_bounds": cfg.get("outside", ""),
             "known_findings_reported": known_lines or [],
+            "harnesses_not_run_for_this_property": cfg.get("_skipped", []),
             "engine_m": mir or None,
             "encoding_regenerated_from": "/repo working tree at run time (cargo kani rebuild; MIR dump of a scratch copy)",
         },
